@@ -11,7 +11,7 @@ import (
 // deletePathTable: the delete notification the cache announces for a removed leaf names that leaf.
 // toDeleteNotification is replayed for every pure encoding of the stored notification's path
 // (structured Elem or deprecated Element strings; prefix and/or update path carrying the
-// elements; atomic or not) and the composition of the announced path is compared with
+// elements; atomic or not) and for the two mixed encodings and the composition of the announced path is compared with
 // prefix ++ path in the encoding that carries the elements.
 func deletePathTable(c *Ctx, rule string) {
 	P := c.P
@@ -24,7 +24,7 @@ func deletePathTable(c *Ctx, rule string) {
 		c.Unresolved(rule, "cache.toDeleteNotification / gnmi.Path.Elem / gnmi.Path.Element")
 		return
 	}
-	c.Rule(rule, "toDeleteNotification, replayed for every pure encoding of the stored path (elements in the prefix, in the update path or in both; Elem or Element form; atomic or not): the one announced delete path is composed of the prefix's elements followed by the update path's elements in the form that carries them (atomic: the prefix alone); no form that carries elements is dropped")
+	c.Rule(rule, "toDeleteNotification, replayed for every encoding of the stored path (elements in the prefix, in the update path or in both; Elem or Element form, also prefix and update path in different forms; atomic or not): the one announced delete path is composed of the prefix's elements followed by the update path's elements in the form that carries them (mixed: the string form converted element by element; atomic: the prefix alone); no part that carries elements is dropped")
 	c.Analysed(fnName(tdn))
 	nP := ssa.Value(param(tdn, 0))
 	// which message a value is: "prefix" (n.GetPrefix() / n.Prefix), "path" (n.Update[0].GetPath() / .Path)
@@ -86,6 +86,52 @@ func deletePathTable(c *Ctx, rule string) {
 		}
 		return ""
 	}
+	// convOf: el is a fresh PathElem whose only initialised field is Name, taken from the range element of a
+	// string-form element list: "conv(<msg>.Element)"
+	fName := P.Field("proto/gnmi", "PathElem", "Name")
+	convOf := func(e *PPA, st *State, el RV) string {
+		al, ok := e.Resolve(st, el).V.(*ssa.Alloc)
+		if !ok || !isNamed(deref(al.Type()), "proto/gnmi", "PathElem") || al.Referrers() == nil {
+			return ""
+		}
+		src := ""
+		for _, r := range *al.Referrers() {
+			fa, ok := r.(*ssa.FieldAddr)
+			if !ok {
+				continue
+			}
+			if fieldOf(fa) != fName || fa.Referrers() == nil {
+				return "" // another field is set: not a plain conversion
+			}
+			for _, rr := range *fa.Referrers() {
+				s, ok := rr.(*ssa.Store)
+				if !ok {
+					continue
+				}
+				u, ok := s.Val.(*ssa.UnOp)
+				if !ok || u.Op != token.MUL {
+					return ""
+				}
+				ia, ok := u.X.(*ssa.IndexAddr)
+				if !ok {
+					return ""
+				}
+				// the element of the current iteration of a range loop
+				if phi, ok := ia.Index.(*ssa.BinOp); !ok || !rangeIndexOf(phi) {
+					if _, isPhi := ia.Index.(*ssa.Phi); !isPhi {
+						return ""
+					}
+				}
+				if l := leafOf(e, st, e.Resolve(st, RV{el.F, ia.X})); strings.HasSuffix(l, ".Element") {
+					src = l
+				}
+			}
+		}
+		if src == "" {
+			return ""
+		}
+		return "conv(" + src + ")"
+	}
 	var comp func(e *PPA, st *State, rv RV, d int) []string
 	comp = func(e *PPA, st *State, rv RV, d int) []string {
 		if d > 12 {
@@ -114,8 +160,32 @@ func deletePathTable(c *Ctx, rule string) {
 			}
 		case *ssa.Call:
 			if b, ok := v.Call.Value.(*ssa.Builtin); ok && b.Name() == "append" {
+				// an append executed earlier on this path (loops): its composition was recorded when it ran
+				if d > 0 {
+					id := fmt.Sprintf("comp\x00%p/%d\x00", v, frameID(r.F))
+					tr := st.Trace()
+					for i := len(tr) - 1; i >= 0; i-- {
+						if tr[i].Label == "fact" && strings.HasPrefix(tr[i].Note, id) {
+							rest := strings.TrimPrefix(tr[i].Note, id)
+							if rest == "" {
+								return nil
+							}
+							return strings.Split(rest, "+")
+						}
+					}
+				}
 				out := comp(e, st, RV{r.F, v.Call.Args[0]}, d+1)
 				if len(v.Call.Args) > 1 {
+					// append(x, &pb.PathElem{Name: s[i]}) inside a range over a string-form element list s:
+					// the converted form of s (one element per iteration)
+					if els, ok := literalElems(v.Call.Args[1]); ok && len(els) == 1 {
+						if cv := convOf(e, st, RV{r.F, els[0]}); cv != "" {
+							if len(out) == 0 || out[len(out)-1] != cv {
+								out = append(out, cv)
+							}
+							return out
+						}
+					}
 					out = append(out, comp(e, st, RV{r.F, v.Call.Args[1]}, d+1)...)
 				}
 				return out
@@ -157,16 +227,20 @@ func deletePathTable(c *Ctx, rule string) {
 		name           string
 		atomic         bool
 		pe, qe, pl, ql int64
+		want           string // explicit expectation for the Elem form (mixed encodings)
 	}
 	rows := []row{
-		{"Elem form, elements in prefix and path", false, 1, 1, 0, 0},
-		{"Elem form, elements in the prefix only (empty update path)", false, 1, 0, 0, 0},
-		{"Elem form, elements in the update path only", false, 0, 1, 0, 0},
-		{"Element form, elements in prefix and path", false, 0, 0, 1, 1},
-		{"Element form, elements in the prefix only", false, 0, 0, 1, 0},
-		{"Element form, elements in the update path only", false, 0, 0, 0, 1},
-		{"atomic, Elem form", true, 1, 1, 0, 0},
-		{"atomic, Element form", true, 0, 0, 1, 1},
+		{"Elem form, elements in prefix and path", false, 1, 1, 0, 0, ""},
+		{"Elem form, elements in the prefix only (empty update path)", false, 1, 0, 0, 0, ""},
+		{"Elem form, elements in the update path only", false, 0, 1, 0, 0, ""},
+		{"Element form, elements in prefix and path", false, 0, 0, 1, 1, ""},
+		{"Element form, elements in the prefix only", false, 0, 0, 1, 0, ""},
+		{"Element form, elements in the update path only", false, 0, 0, 0, 1, ""},
+		{"atomic, Elem form", true, 1, 1, 0, 0, ""},
+		{"atomic, Element form", true, 0, 0, 1, 1, ""},
+		// prefix and update path in different forms: both parts must survive, expressed in one form
+		{"mixed: prefix in Elem form, update path in Element form", false, 1, 0, 0, 1, "prefix.Elem+conv(path.Element)"},
+		{"mixed: prefix in Element form, update path in Elem form", false, 0, 1, 1, 0, "conv(prefix.Element)+path.Elem"},
 	}
 	for _, rw := range rows {
 		lens := map[string]int64{"len(prefix.Elem)": rw.pe, "len(path.Elem)": rw.qe, "len(prefix.Element)": rw.pl, "len(path.Element)": rw.ql}
@@ -174,6 +248,13 @@ func deletePathTable(c *Ctx, rule string) {
 		e := &PPA{Cond: at.Cond, MaxVisits: 2,
 			Watch: func(ev *Ev) bool { return ev.Label == "fact" },
 			Probe: func(e *PPA, st *State, fr *Frame, in ssa.Instruction) {
+				if call, ok := in.(*ssa.Call); ok {
+					if b, ok := call.Call.Value.(*ssa.Builtin); ok && b.Name() == "append" {
+						parts := comp(e, st, RV{fr, call}, 0)
+						e.emit(st, Ev{Label: "fact", In: in, F: fr, Note: fmt.Sprintf("comp\x00%p/%d\x00", call, frameID(fr)) + strings.Join(parts, "+")})
+					}
+					return
+				}
 				s, ok := in.(*ssa.Store)
 				if !ok {
 					return
@@ -190,7 +271,8 @@ func deletePathTable(c *Ctx, rule string) {
 				// components that are empty in this scenario contribute nothing
 				var kept []string
 				for _, p := range parts {
-					if n, known := lens["len("+p+")"]; known && n == 0 {
+					inner := strings.TrimSuffix(strings.TrimPrefix(p, "conv("), ")")
+					if n, known := lens["len("+inner+")"]; known && n == 0 {
 						continue
 					}
 					kept = append(kept, p)
@@ -211,6 +293,10 @@ func deletePathTable(c *Ctx, rule string) {
 		if !rw.atomic && rw.qe+rw.ql > 0 {
 			want = append(want, "path."+form)
 		}
+		if rw.want != "" {
+			form = "Elem"
+			want = strings.Split(rw.want, "+")
+		}
 		n := 0
 		for i := range e.Paths {
 			p := &e.Paths[i]
@@ -221,7 +307,7 @@ func deletePathTable(c *Ctx, rule string) {
 			got := map[string]string{}
 			multi := false
 			for j := range p.Trace {
-				if p.Trace[j].Label == "fact" {
+				if p.Trace[j].Label == "fact" && !strings.HasPrefix(p.Trace[j].Note, "comp\x00") {
 					kv := strings.SplitN(p.Trace[j].Note, "=", 2)
 					if _, dup := got[kv[0]]; dup {
 						multi = true
@@ -238,4 +324,11 @@ func deletePathTable(c *Ctx, rule string) {
 		}
 		c.Floor(rule+"/"+rw.name, n, 1)
 	}
+}
+
+func frameID(f *Frame) int {
+	if f == nil {
+		return -1
+	}
+	return f.ID
 }
